@@ -621,12 +621,31 @@ def main(ctx):
                 v = row[1]
                 if v not in sessions:
                     sessions[v] = sw.session(v)
-                if row[0] == 'errno':
-                    got = sftp_proto.errno_case(sessions[v], v, name=row[2])
-                    label = row[2]
-                else:
-                    got = sftp_proto.errno_case(sessions[v], v, code=row[2])
-                    label = f'SFTPError({row[2]})'
+                label = row[2] if row[0] == 'errno' else \
+                    f'SFTPError({row[2]})'
+                try:
+                    if row[0] == 'errno':
+                        got = sftp_proto.errno_case(sessions[v], v,
+                                                    name=row[2])
+                    else:
+                        got = sftp_proto.errno_case(sessions[v], v,
+                                                    code=row[2])
+                except Exception:       # pylint: disable=broad-except
+                    got = None          # the session did not survive the row
+                if got is None:
+                    # no reply: the session is gone, maybe the connection with
+                    # it; the next row gets a new server world
+                    for s in sessions.values():
+                        try:
+                            s.close()
+                        except Exception:   # pylint: disable=broad-except
+                            pass
+                    sessions.clear()
+                    try:
+                        sw.close()
+                    except Exception:   # pylint: disable=broad-except
+                        pass
+                    sw = sftp_proto.ServerWorld()
                 nsrv += 1
                 ctx.count(('errno', v, label))
                 if got != row[3]:
@@ -636,6 +655,8 @@ def main(ctx):
                             f'{got}, documented code is {row[3]}',
                             {'kind': 'errno', 'v': v, 'error': label})
         for v in (3, 4, 5, 6):
+            if v not in sessions:
+                sessions[v] = sw.session(v)
             got = sftp_proto.errno_case(sessions[v], v)
             nsrv += 1
             ctx.count(('errno', v, 'NotImplementedError'))
